@@ -42,6 +42,7 @@ def run(R: vlib.Run):
     rng = R.rng
     nmax = 64 if R.tier == "quick" else 256
     ucases, pcases = [], []   # (nbits, big, input list, impl output list)
+    held = []                 # results kept while further calls of the same output size are made: they must not change afterwards
     for nbits in (1, 2, 4):
         bf = 8 // nbits
         for oname, big in ORDERS:
@@ -78,6 +79,8 @@ def run(R: vlib.Run):
                            {"nbits": nbits, "order": oname, "in": inp, "got": list(map(int, back))})
                 if len(inp) <= 64:
                     ucases.append((nbits, big, inp, list(map(int, out))))
+                if len(inp) in (1, 3):
+                    held.append(("unpack", nbits, oname, inp, out, exp))
             # pack: all in-range tuples of one byte + random arrays
             tuples = []
             lim = 1 << nbits
@@ -103,6 +106,8 @@ def run(R: vlib.Run):
                            {"nbits": nbits, "order": oname, "in": inp})
                     continue
                 exp = [byte_of(inp[i * bf:(i + 1) * bf], nbits, big) for i in range(len(inp) // bf)]
+                if len(inp) == bf:
+                    held.append(("pack", nbits, oname, inp, out, [byte_of(inp, nbits, big)]))
                 key = ("p", nbits, oname, tuple(inp))
                 R.case(key, nontrivial=len(inp) > 0, regime=f"pack{nbits}_{oname}",
                        sample={"op": "pack", "nbits": nbits, "order": oname, "in": inp[:16], "out": [int(x) for x in out[:4]]} if len(inp) == 2 * bf else None)
@@ -115,6 +120,13 @@ def run(R: vlib.Run):
                            {"nbits": nbits, "order": oname, "in": inp, "got": list(map(int, un))})
                 if len(inp) <= 64 * bf:
                     pcases.append((nbits, big, inp, list(map(int, out))))
+    # a result returned earlier is the caller's: later calls (same size, other data, no buffer supplied) must not overwrite it
+    for op, nbits, oname, inp, arr, exp in held:
+        R.case(("held", op, nbits, oname, tuple(inp)), regime="held-results")
+        if list(map(int, arr)) != exp:
+            R.fail(f"{op}{nbits}_{oname}_result-overwritten", f"the array returned by an earlier {op} call was changed by later calls",
+                   {"nbits": nbits, "order": oname, "in": inp, "now": list(map(int, arr)), "returned_value_was": exp})
+            break
     # malformed stream: each must raise ValueError
     bad = [
         ("unpack-dtype", lambda: bits.unpack(np.zeros(4, dtype=np.float32), 2)),
